@@ -67,7 +67,7 @@ pub fn min_vertex_cut<I>(edges: I, source: usize, sink: usize)
         .flat_map(|&(v, w)| [v, w])
         .collect();
 
-    let offset = vertices.iter().max().unwrap_or(&0) + 1;
+    let offset = vertices.iter().max().unwrap_or(&0).max(&source).max(&sink) + 1;
 
     let x_edges: Vec<_> = std::iter::empty()
         .chain(edges.iter().map(|&(v, w)| (v + offset, w)))
@@ -128,7 +128,7 @@ fn augment(
     let mut back = BTreeMap::new();
 
     while let Some(v) = q.pop_front() {
-        for &w in &neighbors[&v] {
+        for &w in neighbors.get(&v).into_iter().flatten() {
             if !seen.contains(&w) && !path_edges.contains(&(v, w)) {
                 if edges.contains(&(v, w)) || path_edges.contains(&(w, v)) {
                     back.insert(w, v);
